@@ -415,7 +415,10 @@ func (v *Vue) callFunc(ctx *VueContext, fn any, args ...any) (any, error) {
 	}
 
 	// Call the function
-	out := fnVal.Call(in)
+	out, err := callRecovering(fnVal, in)
+	if err != nil {
+		return nil, err
+	}
 
 	// Handle return values
 	switch len(out) {
@@ -434,6 +437,17 @@ func (v *Vue) callFunc(ctx *VueContext, fn any, args ...any) (any, error) {
 	default:
 		return nil, fmt.Errorf("function returns too many values")
 	}
+}
+
+// callRecovering calls a registered function. A panic inside it must not take the render
+// (and the process) down: it is reported like any other failure of that function.
+func callRecovering(fn reflect.Value, in []reflect.Value) (out []reflect.Value, err error) {
+	defer func() {
+		if r := recover(); r != nil {
+			err = fmt.Errorf("panic: %v", r)
+		}
+	}()
+	return fn.Call(in), nil
 }
 
 // convertValue attempts common type conversions
